@@ -27,8 +27,8 @@ pub const SHARD_SETS: &[&[&str]] = &[
 ];
 pub const LAYOUTS: &[&str] = &["p", "p+r", "r", "r+r", "p+p", "dup", "p+r+r"];
 pub const DEFAULT_SHARDS: &[&str] = &["-", "shard_0", "shard_1", "shard_2", "shard_9", "random", "random_healthy", "junk"];
-pub const DEFAULT_ROLES: &[&str] = &["-", "any", "primary", "replica", "junk"];
-pub const MISC: &[&str] = &["none", "no-password", "no-password-authquery", "bad-regex", "plugins-without-parser", "min-pool-too-big", "rw-split-without-parser", "two-users", "bad-sharding-key"];
+pub const DEFAULT_ROLES: &[&str] = &["-", "any", "primary", "replica", "junk", "Primary"];
+pub const MISC: &[&str] = &["none", "no-password", "no-password-authquery", "bad-regex", "plugins-without-parser", "min-pool-too-big", "rw-split-without-parser", "two-users", "bad-sharding-key", "authquery-user-password-only", "authquery-query-only"];
 
 fn host(shard_key: &str, k: usize, role: &str) -> String {
     // the host name carries the numeric VALUE of the shard key when it has one
@@ -117,6 +117,9 @@ pub fn scenario(shards: &[&str], layout: &str, default_shard: &str, default_role
             pool.users[0].password = None;
             general = "auth_query = \"SELECT usename, passwd FROM pg_shadow WHERE usename='$1'\"\nauth_query_user = \"authuser\"\nauth_query_password = \"authpw\"\n".into();
         }
+        // half-configured auth_query (the user has a password of its own): reject it or serve it
+        "authquery-user-password-only" => extra.push_str("auth_query_user = \"authuser\"\nauth_query_password = \"authpw\"\n"),
+        "authquery-query-only" => extra.push_str("auth_query = \"SELECT usename, passwd FROM pg_shadow WHERE usename='$1'\"\n"),
         "bad-regex" => extra.push_str("sharding_key_regex = '/\\* sharding_key: (\\d+ \\*/'\n"),
         "plugins-without-parser" => pool.plugins = "[pools.db.plugins.table_access]\nenabled = true\ntables = [\"t\"]\n".into(),
         "rw-split-without-parser" => extra.push_str("query_parser_read_write_splitting = true\n"),
@@ -307,7 +310,7 @@ pub fn build(tier: &str) -> SimCheck {
         oracle: Box::new(oracle),
         bound: 0,
         limits: Limits { max_wall_s: if thorough { 2400.0 } else { 55.0 }, ..Default::default() },
-        rule: "configuration grammar: 16 shard-id sets (contiguous up to 12 shards, not from 0, gaps, duplicates by value, non-numeric, unordered) x 7 server layouts (roles, two primaries, duplicate servers) x 8 default_shard values x 5 default_role values (quick: one dimension varied at a time around the base, full cross of shard sets x default_shard) + 8 other defects (missing credentials, auth_query, invalid regex, plugins / splitting without parser, min_pool_size, unqualified sharding key, two users); each file is loaded by the real config::parse + from_config in its own process; accepted files are then served: one transaction per (shard 0..n-1, role), one with no shard selected, one more per shard after an idle gap (health check on checkout), SHOW DATABASES/POOLS/STATS/SERVERS/BANS/CONFIG, BAN/UNBAN".into(),
+        rule: "configuration grammar: 16 shard-id sets (contiguous up to 12 shards, not from 0, gaps, duplicates by value, non-numeric, unordered) x 7 server layouts (roles, two primaries, duplicate servers) x 8 default_shard values x 6 default_role values (incl. a capitalised one) (quick: one dimension varied at a time around the base, full cross of shard sets x default_shard) + 10 other defects (missing credentials, auth_query, half-configured auth_query, invalid regex, plugins / splitting without parser, min_pool_size, unqualified sharding key, two users); each file is loaded by the real config::parse + from_config in its own process; accepted files are then served: one transaction per (shard 0..n-1, role), one with no shard selected, one more per shard after an idle gap (health check on checkout), SHOW DATABASES/POOLS/STATS/SERVERS/BANS/CONFIG, BAN/UNBAN".into(),
         assumptions: vec!["reference predicate 'unservable' is the property's own list; rejecting a file is always safe".into()],
     }
 }
